@@ -19,6 +19,14 @@ pub fn gen(tier: &str, seed: u64, emit: &mut dyn FnMut(String)) {
         let (b1, b2) = (rng.byte(), rng.byte());
         emit(format!("P12 {}", hex(&mk(&mut rng, b1, b2, b3, b4))));
     } }
+    // the PIDs with a meaning of their own (PAT, CAT, null packets, ...) and their neighbours x every value of header
+    // byte 3 x boundary and random adaptation_field_lengths: an accessor that treats one of them specially shows here
+    for pid in [0u16, 1, 2, 0x10, 0x11, 0x1ffb, 0x1ffe, 0x1fff] { for b3 in 0..=255u8 {
+        for b4 in [0u8, 1, 2, 100, 181, 182, 183, 184, 255] {
+            let b1 = (rng.byte() & 0xe0) | (pid >> 8) as u8;
+            emit(format!("P12 {}", hex(&mk(&mut rng, b1, pid as u8, b3, b4))));
+        }
+    } }
     // bad sync bytes
     for s in 0..=255u8 {
         let mut p = rng.bytes(188); p[0] = s;
